@@ -114,6 +114,13 @@ Definition track_result (p0 : progress) (id : Z) (evs : list (tev Z)) : tree :=
   | Some t => L [ofList I (yields evs); ofQ (t_completed t); ofQ (t_total t); ofB (finished t)]
   end.
 
+(* ---- Mix: [0, a] advance | [1, tot?, comp?, adv?] update | [2, comp] reset *)
+Definition tMop (t : tree) : Mix.mop :=
+  let k := tZ (tNth t 0) in
+  if (k =? 0)%Z then Mix.MAdv (tZ (tNth t 1))
+  else if (k =? 1)%Z then Mix.MUpd (tOpt tZ (tNth t 1)) (tOpt tZ (tNth t 2)) (tOpt tZ (tNth t 3))
+  else Mix.MRst (tZ (tNth t 1)).
+
 (* ---- Conc *)
 Definition tProgs (t : tree) : list (list Z) := tList (tList tZ) t.
 Definition tConcInit (t : tree) : Conc.state :=
@@ -168,6 +175,13 @@ Definition ops : list (string * (tree -> tree)) := [
       let st := Conc.srun evs (tConcInit t) (map Z.to_nat (tList tZ (tNth t 6))) in
       L [ofB (Conc.all_done st); ofConcFinal (fst st);
          I (cls (speed (Conc.task_of (fst st)))); I (clsZ (time_remaining (Conc.task_of (fst st))))]);
+  ("fhist", fun _ => L []);          (* spec-only on the harness side *)
+  ("float_witness", fun _ =>         (* 1e16, advance(1.0) twice: value reached, and is it the exact sum? *)
+      let l := [(FAdd 1, 10000000000000000 # 1); (FAdd 1, 10000000000000000 # 1)] in
+      L [ofQ (chain_last (10000000000000000 # 1) l);
+         ofB (Qeq_bool (chain_last (10000000000000000 # 1) l) (chain_exact (10000000000000000 # 1) l));
+         ofB (chain_ok_b u_binary64 (10000000000000000 # 1) l)]);
+  ("sched_mix", fun _ => L []);      (* spec-only on the harness side *)
   ("sched", fun _ => L []);          (* spec-only on the harness side *)
   (* ---- facts about the regenerated event lists, reported with every run *)
   ("lock_facts", fun _ =>
@@ -190,6 +204,23 @@ Definition ops : list (string * (tree -> tree)) := [
       ofB (no_lost_update_b (tZ (tNth t 0)) (concat (tProgs (tNth t 1))) (tZ (tNth t 2))));
   ("spec.conc_derived_ok", fun t =>  (* [speed?, tr?] of the real task after the run *)
       ofB (speed_ok_b (tOpt tQ (tNth t 0)) && tr_ok_b (tOpt tZ (tNth t 1))));
+  ("spec.float_accounting_ok", fun t =>   (* [hist, obss] with obss = per step [[id, completed], ...] *)
+      let '(_, h) := tHist (tNth t 0) in
+      ofB (float_accounting_ok_b u_binary64 h
+             (tList (tList (fun x => (tZ (tNth x 0), tQ (tNth x 1)))) (tNth t 1))));
+  ("spec.mixed_ok", fun t =>         (* [c0, calls in lock-acquisition order, final completed] *)
+      ofB (Mix.eval_log (tZ (tNth t 0)) (concat (map Mix.spec_writes (tList tMop (tNth t 1)))) =? tZ (tNth t 2))%Z);
+  ("spec.mix_replay_ok", fun t =>    (* [c0, progs, trace, values written, final completed] *)
+      let trace := tList (fun x => (Z.to_nat (tZ (tNth x 0)), tZ (tNth x 1))) (tNth t 2) in
+      let c0 := tZ (tNth t 0) in
+      match MixReplay.replay advance_xevents update_xevents reset_xevents trace
+              (Mix.init_state c0 (tList (tList tMop) (tNth t 1))) with
+      | None => I 0
+      | Some st =>
+          ofB (forallb MixReplay.thread_idle (snd st)
+               && (Mix.completed (fst st) =? tZ (tNth t 4))%Z
+               && list_eqbZ (MixReplay.scan_log c0 (Mix.wlog (fst st))) (tList tZ (tNth t 3)))
+      end);
   ("spec.replay_ok", fun t =>        (* [init..., trace, final] : observed event order is admissible
                                         for the model and leads to the observed final state *)
       let trace := tList (fun x => (Z.to_nat (tZ (tNth x 0)), tZ (tNth x 1))) (tNth t 5) in
